@@ -246,7 +246,8 @@ func (d *dataTracer) emitUnfinished() {
 		unfinished = d.actual
 	}
 
-	if unfinished > 0 && d.builder != nil { // (no builder: data was seen before any response headers)
+	// (d.env != nil: the message's prefix was seen, if none of its payload)
+	if (unfinished > 0 || d.env != nil) && d.builder != nil { // (no builder: data was seen before any response headers)
 		if d.isRequest {
 			d.builder.add(&RequestBodyData{
 				Envelope: d.env,
